@@ -56,6 +56,10 @@ CHECKS = {
   "complete enumeration of the finite misuse matrix: every exported Point operation x every Point-typed input position x ways of producing a zero value x other-argument values; recover() as oracle",
   "Every input position of every operation (incl. each index of the points slice for n=1..3) is made zero-valued in five different ways with all other inputs valid -> must panic; receiver-only zero values must not panic; all (len scalars, len points) in {0..3}^2 panic iff different. The operation table is cross-checked against reflection.",
   "recover() observes panics; the operation table lists today's exported methods (new ones are reported as uncovered)", "3 C15"),
+ "C19": (MC, "opseq(replay)",
+  "stateless exhaustive exploration of all call/scribble/operation sequences up to a depth bound, each replayed from fresh values in isolated processes; invariants (memory disjointness, unchanged sources and earlier results, constant probe battery) evaluated after every step",
+  "All sequences to depth 3 (quick) / 4 (thorough) over 20 events: 10 constructor/accessor calls, 6 scribbles over previously returned values (exported setters, zeroing, raw bytes up to cap), 4 heavy operations. After every step: sources bit-identical, earlier results unchanged, new results equal the model and occupy fresh memory, and a 70-call probe battery on fixed arguments (receivers with different histories included) is byte-identical. Sharded over 16 processes so that package state is never shared between explorers.",
+  "package state is observed behaviourally (probe battery) and through pointer ranges, not through a snapshot of package variables", "3 C19"),
  "C16": (EX, "lattice", "exhaustive enumeration of (u,v) grids and of all pairs of field-alphabet forms against an Euler-criterion/ModSqrt oracle",
   "All (u,v) in [0,256)^2, all ordered pairs of forms of alphabet F, lattice corners, with the receiver aliased to u, to v, to neither, and u,v the same pointer; all four contract classes counted.",
   "math/big", "3 C16"),
@@ -67,7 +71,6 @@ CHECKS = {
 NOT_YET = {
  "C03": "check under construction (leakage-trace self-composition); not claimed yet",
  "C18": "check under construction (controlled scheduler); not claimed yet",
- "C19": "check under construction; not claimed yet",
  "C20": "check under construction; not claimed yet",
 }
 
